@@ -125,6 +125,9 @@ class AsyncioTransportStreamSocketAdapter(AsyncStreamTransport):
         del iterable_of_data
         if list_of_data:
             self.__transport.writelines(list_of_data)
+            # Some interpreter versions (e.g. CPython 3.12.1) do not notify the protocol from writelines() when data stays
+            # in the write buffer. set_write_buffer_limits() re-runs the check and calls pause_writing() if needed.
+            self.__transport.set_write_buffer_limits(0)
         await self.__protocol.writer_drain()
 
     async def send_eof(self) -> None:
